@@ -74,6 +74,13 @@ const char *pick(int i) { return names[i & 3] + (big[i & 0xffff] & 1) + (common_
 }
 HAS_MAIN = ("hello.c", "funcs.c")
 
+# 300 imported functions (more than the 256 stubs one libimp region holds); only built as x86 shared objects and objects
+MANY_IMPORTS = 300
+EXTRA_SOURCES = {
+    "many.c": "".join("extern int imp%03d(int);\n" % k for k in range(MANY_IMPORTS)) +
+              "int callall(int x) {\n" + "".join("    x += imp%03d(x);\n" % k for k in range(MANY_IMPORTS)) + "    return x;\n}\n",
+}
+
 CLANG_TARGETS = ("armv7", "armeb", "aarch64", "aarch64_be", "mips", "mipsel", "mips64", "powerpc", "powerpc64",
                  "powerpc64le", "riscv64", "i386", "s390x")
 
@@ -103,6 +110,13 @@ def plan():
         for t in CLANG_TARGETS:
             out = "%s.%s.o" % (st, t)
             jobs.append((out, "clang-" + t, ["clang", "--target=%s-linux-gnu" % t, "-O1", "-c", "-o", out, src], []))
+    for src in sorted(EXTRA_SOURCES):
+        st = _stem(src)
+        jobs.append((st + ".gcc.so", "gcc-shared", ["gcc", "-O1", "-shared", "-fPIC", "-o", st + ".gcc.so", src], []))
+        jobs.append((st + ".gcc.o", "gcc-obj", ["gcc", "-O1", "-c", "-o", st + ".gcc.o", src], []))
+        jobs.append((st + ".m32.o", "gcc-m32-obj", ["gcc", "-m32", "-O1", "-fPIC", "-c", "-o", st + ".m32.o", src], []))
+        jobs.append((st + ".m32.so", "ld-i386-shared", ["ld", "-m", "elf_i386", "-shared", "-o", st + ".m32.so", st + ".m32.o"],
+                     [st + ".m32.o"]))
     return jobs
 
 
@@ -120,6 +134,7 @@ def _tool_versions():
 def corpus_key():
     h = hashlib.sha256()
     h.update(json.dumps(SOURCES, sort_keys=True).encode())
+    h.update(json.dumps(EXTRA_SOURCES, sort_keys=True).encode())
     h.update(json.dumps([j[:3] for j in plan()]).encode())
     h.update(json.dumps(_tool_versions()).encode())
     return h.hexdigest()[:20]
@@ -129,7 +144,7 @@ def _build(dest):
     """Compile everything in a fresh temp dir and move the results to dest (atomically)."""
     tmp = tempfile.mkdtemp(prefix="verif_elfcorpus_")
     try:
-        for name, text in SOURCES.items():
+        for name, text in list(SOURCES.items()) + list(EXTRA_SOURCES.items()):
             with open(os.path.join(tmp, name), "w") as fd:
                 fd.write(text)
         env = dict(os.environ)
